@@ -87,6 +87,7 @@ Definition model_fs_sites : list (string * string * string * string) :=
    ("util.go", "createNewDir", "Mkdir", "prelude_create");
    ("util.go", "createNewDir", "RemoveAll", "prelude_create");
    ("util.go", "cleanedRelativePath", "CleanedAbs", "cleaned_relative_path");
+   ("localizer.go", "Run", "RemoveAll", "localize_tail (deferred recover: cleanup on panic)");
    ("localizer.go", "Run", "MkdirAll", "localize_tail");
    ("localizer.go", "Run", "RemoveAll", "localize_tail");
    ("localizer.go", "Run", "RemoveAll", "localize_tail");
@@ -174,6 +175,21 @@ Lemma run_pcatch {A} ch fault (m : prog A) : forall w,
   end.
 Proof.
   induction m as [a|e k IH|x]; intros w; cbn [pcatch]; try reflexivity.
+  - destruct e; try (rewrite !run_op by discriminate; destruct (step_world fault _ w) as [w1 r]; apply IH).
+    rewrite !run_choose. apply IH.
+  - destruct x; reflexivity.
+Qed.
+
+Lemma run_ptry {A} ch fault (m : prog A) : forall w,
+  run ch fault (ptry m) w =
+  match run ch fault m w with
+  | (w', OOk a) => (w', OOk (inl a))
+  | (w', OExn XErr) => (w', OOk (inr XErr))
+  | (w', OExn XPanic) => (w', OOk (inr XPanic))
+  | (w', OExn x) => (w', OExn x)
+  end.
+Proof.
+  induction m as [a|e k IH|x]; intros w; cbn [ptry]; try reflexivity.
   - destruct e; try (rewrite !run_op by discriminate; destruct (step_world fault _ w) as [w1 r]; apply IH).
     rewrite !run_choose. apply IH.
   - destruct x; reflexivity.
@@ -502,6 +518,15 @@ Section Safety.
     triple m Q -> triple (pcatch m) (fun o => forall a, o = Some a -> Q a).
   Proof.
     intros Hm ch fault w w' out I H. rewrite run_pcatch in H.
+    destruct (run ch fault m w) as [w1 [a|x]] eqn:E; destruct (Hm _ _ _ _ _ I E) as [I1 HQ].
+    - inv H. split; auto. intros o Eo; inv Eo. intros a' Ea; inv Ea. auto.
+    - destruct x; inv H; split; auto; intros o Eo; inv Eo; intros a' Ea; inv Ea.
+  Qed.
+
+  Lemma triple_ptry {A} (m : prog A) Q :
+    triple m Q -> triple (ptry m) (fun o => forall a, o = inl a -> Q a).
+  Proof.
+    intros Hm ch fault w w' out I H. rewrite run_ptry in H.
     destruct (run ch fault m w) as [w1 [a|x]] eqn:E; destruct (Hm _ _ _ _ _ I E) as [I1 HQ].
     - inv H. split; auto. intros o Eo; inv Eo. intros a' Ea; inv Ea. auto.
     - destruct x; inv H; split; auto; intros o Eo; inv Eo; intros a' Ea; inv Ea.
@@ -1203,12 +1228,12 @@ Proof.
   eapply triple_mut; [right; left; reflexivity | |].
   { rewrite query_show by (rewrite good_path_app, Gnd, Gr; auto). apply is_prefix_app. }
   intros r0.
-  assert (Hcl : triple nd s0 (Op (ERemoveAll (show_abs nd)) (fun _ => Throw XErr : prog string)) (fun _ => True)).
-  { apply triple_remove; [apply query_show; auto|]. intros; apply triple_throw. }
-  destruct r0; try exact Hcl.
+  assert (Hcl : forall x, triple nd s0 (Op (ERemoveAll (show_abs nd)) (fun _ => Throw x : prog string)) (fun _ => True)).
+  { intros x. apply triple_remove; [apply query_show; auto|]. intros; apply triple_throw. }
+  destruct r0; try exact (Hcl XErr).
   eapply triple_bind.
-  { apply triple_pcatch. apply triple_localize; auto. exists r. auto. }
-  intros [u|] _; [apply triple_ret; auto | exact Hcl].
+  { apply triple_ptry. apply triple_localize; auto. exists r. auto. }
+  intros [u|x] _; [apply triple_ret; auto | exact (Hcl x)].
 Qed.
 
 Theorem run_safe orc fuel target scope newdir s0 :
@@ -1414,18 +1439,51 @@ Proof.
   - inv H. exfalso. eapply pcatch_not_err; eauto.
 Qed.
 
-(* Run after NewLoader: an error return leaves no newDir *)
-Lemma tail_cleanup orc ch fault fuel sc troot nd w w' :
-  run ch fault (localize_tail orc fuel (sc, troot, nd)) w = (w', OExn XErr) ->
+Lemma ptry_not_caught {A} ch fault (m : prog A) w w' x :
+  run ch fault (ptry m) w = (w', OExn x) -> x <> XErr /\ x <> XPanic.
+Proof.
+  rewrite run_ptry. destruct (run ch fault m w) as [w1 [a|[| | | |]]]; intros H; inv H; split; discriminate.
+Qed.
+
+(* programs whose only failure mode is the error return (no panic, no exit): createNewDir *)
+Inductive err_only {A} : prog A -> Prop :=
+| eo_ret a : err_only (Ret a)
+| eo_throw : err_only (Throw XErr)
+| eo_op e k : (forall r, err_only (k r)) -> err_only (Op e k).
+
+Lemma err_only_out {A} ch fault (m : prog A) : err_only m ->
+  forall w w' x, run ch fault m w = (w', OExn x) -> x = XErr.
+Proof.
+  induction 1 as [a| |e k Hk IH]; intros w w' x H0.
+  - cbn in H0. inv H0.
+  - cbn in H0. inv H0. reflexivity.
+  - destruct e; try (rewrite run_op in H0 by discriminate; destruct (step_world fault _ w) as [w1 r]; eapply IH; eauto).
+    rewrite run_choose in H0. eapply IH; eauto.
+Qed.
+
+Lemma err_only_confirm p : err_only (confirm_dir p).
+Proof.
+  unfold confirm_dir. destruct (String.eqb p ""); try constructor.
+  intros r; destruct r; try constructor. destruct (String.eqb f ""); constructor.
+Qed.
+
+Lemma err_only_bind {A B} (m : prog A) (f : A -> prog B) :
+  err_only m -> (forall a, err_only (f a)) -> err_only (pbind m f).
+Proof. induction 1; cbn; auto; constructor; auto. Qed.
+
+(* Run after NewLoader: an error return AND a panic leave no newDir *)
+Lemma tail_cleanup orc ch fault fuel sc troot nd w w' x :
+  x = XErr \/ x = XPanic ->
+  run ch fault (localize_tail orc fuel (sc, troot, nd)) w = (w', OExn x) ->
   (forall e, In e (w_trace w') -> ev_op e = ORemoveAll -> ev_ok e = true) ->
   exists_path (w_fs w') nd = false.
 Proof.
-  intros H Hrm. unfold localize_tail in H. rewrite run_op in H by discriminate.
+  intros Hx H Hrm. unfold localize_tail in H. rewrite run_op in H by discriminate.
   destruct (step_world fault (EMkdirAll _) w) as [w1 r].
-  assert (Cl : forall w2 w3, run ch fault (Op (ERemoveAll (show_abs nd)) (fun _ => Throw XErr : prog string)) w2 = (w3, OExn XErr) ->
+  assert (Cl : forall y w2 w3 z, run ch fault (Op (ERemoveAll (show_abs nd)) (fun _ => Throw y : prog string)) w2 = (w3, OExn z) ->
                (forall e, In e (w_trace w3) -> ev_op e = ORemoveAll -> ev_ok e = true) ->
                exists_path (w_fs w3) nd = false).
-  { intros w2 w3 H2 Hrm2. rewrite run_op in H2 by discriminate.
+  { intros y w2 w3 z H2 Hrm2. rewrite run_op in H2 by discriminate.
     pose proof (step_trace fault (ERemoveAll (show_abs nd)) w2) as T.
     pose proof (step_remove_ok fault (show_abs nd) w2) as K.
     destruct (step_world fault (ERemoveAll (show_abs nd)) w2) as [w4 r4]. cbn [fst snd] in T, K.
@@ -1435,34 +1493,49 @@ Proof.
     unfold exists_path. eapply remove_all_gone; eauto. }
   destruct r; try (eapply Cl; eauto; fail).
   rewrite run_bind in H.
-  destruct (run ch fault (pcatch _) w1) as [w2 [[u|]|x]] eqn:E.
+  destruct (run ch fault (ptry _) w1) as [w2 [[u|y]|z]] eqn:E.
   - cbn in H. inv H.
   - eapply Cl; eauto.
-  - inv H. exfalso. eapply pcatch_not_err; eauto.
+  - inv H. exfalso. destruct (ptry_not_caught _ _ _ _ _ _ E) as [N1 N2]. destruct Hx; congruence.
 Qed.
 
-(* ALL-OR-NOTHING for error returns (since the repair d268200): whenever localize RETURNS an error —
-   for every fault position, also the early ones — and no RemoveAll call failed, newDir (which was
-   not there before) does not exist afterwards. *)
-Theorem all_or_nothing_partial orc ch fuel target scope newdir fault s w :
+(* createNewDir neither panics nor exits: its failures are error returns *)
+Lemma create_err_only x0 : err_only (prelude_create x0).
+Proof.
+  destruct x0 as [[sc troot] raw]. unfold prelude_create.
+  apply err_only_bind; [unfold op_unit; constructor; intros r; destruct r; constructor|]. intros _.
+  apply err_only_bind.
+  - assert (E : forall A (m : prog A), err_only m -> err_only (pcatch m)).
+    { intros A m Hm. induction Hm; cbn; constructor; auto. }
+    apply E, err_only_confirm.
+  - intros r. destruct r; constructor. intros; constructor.
+Qed.
+
+(* ALL-OR-NOTHING for error returns AND panics (since the repairs d268200 and 113a8f3): whenever
+   localize returns an error or panics — for every fault position — and no RemoveAll call failed,
+   newDir (which was not there before) does not exist afterwards.  Only the process exit
+   (log.Fatalf) is left out. *)
+Theorem all_or_nothing_partial orc ch fuel target scope newdir fault s w x :
   fs_wf s ->
+  x = XErr \/ x = XPanic ->
   exists_path s (newdir_path target newdir) = false ->
-  run_localize orc ch fuel target scope newdir fault s = (w, OExn XErr) ->
+  run_localize orc ch fuel target scope newdir fault s = (w, OExn x) ->
   (forall e, In e (w_trace w) -> ev_op e = ORemoveAll -> ev_ok e = true) ->
   exists_path (w_fs w) (newdir_path target newdir) = false.
 Proof.
-  intros W Fr H Hrm. unfold run_localize, localize_run, localize_prelude in H.
+  intros W Hx Fr H Hrm. unfold run_localize, localize_run, localize_prelude in H.
   rewrite !run_bind in H.
-  destruct (run ch fault (prelude_checks target scope newdir) (world0 s)) as [w0 [[[sc troot] raw]|x]] eqn:E0.
+  destruct (run ch fault (prelude_checks target scope newdir) (world0 s)) as [w0 [[[sc troot] raw]|x0]] eqn:E0.
   - pose proof (ro_only_fs _ _ _ (ro_only_checks target scope newdir) _ _ _ E0) as F0. cbn in F0.
     destruct (triple_checks _ s target scope newdir eq_refl _ _ _ _ _ (inv_world0 _ _ W) E0) as [I0 P].
     destruct (P _ eq_refl) as (Eraw & Gsc & Hr).
-    destruct (run ch fault (prelude_create (sc, troot, raw)) w0) as [w1 [[[sc' troot'] nd']|x]] eqn:E1.
+    destruct (run ch fault (prelude_create (sc, troot, raw)) w0) as [w1 [[[sc' troot'] nd']|x1]] eqn:E1.
     + destruct (triple_create _ s sc troot raw Eraw _ _ _ _ _ I0 E1) as [_ P1].
       destruct (P1 _ eq_refl) as (-> & -> & -> & G).
       eapply tail_cleanup; eauto.
-    + injection H as <- ->. rewrite <- Eraw. eapply create_cleanup; eauto. rewrite Eraw, F0. exact Fr.
-  - injection H as <- ->. rewrite (ro_only_fs _ _ _ (ro_only_checks target scope newdir) _ _ _ E0). exact Fr.
+    + injection H as <- <-. pose proof (err_only_out _ _ _ (create_err_only _) _ _ _ E1) as ->.
+      rewrite <- Eraw. eapply create_cleanup; eauto. rewrite Eraw, F0. exact Fr.
+  - injection H as <- <-. rewrite (ro_only_fs _ _ _ (ro_only_checks target scope newdir) _ _ _ E0). exact Fr.
 Qed.
 
 Corollary writes_confined_in orc ch fuel target scope newdir fault s w out :
